@@ -1,8 +1,9 @@
 import DD.Driver
 import DD.Dddmp
+import DD.DddmpText
 open DD
 
-/-- `<id>\tdddmp_load\t<fields...>`: load the abstract file into manager `<id>`,
+/-- `<id>\tdddmp_text\t<hex>`: `dd.dddmp.load` on the text; `<id>\tdddmp_load\t<fields...>`: load the abstract file into manager `<id>`,
 answer the (sorted) contents of `roots`; every other line goes to `DD.stepLine` -/
 def stepLineDddmp (ms : Mgrs) (line : String) : Mgrs × String :=
   match line.splitOn "\t" with
@@ -13,6 +14,14 @@ def stepLineDddmp (ms : Mgrs) (line : String) : Mgrs × String :=
       | .ok m => (ms.insert id m, "ok " ++ showInts (sortBy (· ≤ ·) m.roots))
       | .error e => (ms, "err " ++ toString e)
     | _, _ => (ms, "err BAD-LINE")
+  | id :: "dddmp_text" :: [hex] =>
+    -- the TEXT of the file (hexadecimal bytes): lexer, grammar, line dispatch, then the loader
+    match parseNat? id, unhexAscii hex.toList with
+    | some id, some text =>
+      match loadDddmpText text with
+      | .ok m => (ms.insert id m, "ok " ++ showInts (sortBy (· ≤ ·) m.roots))
+      | .error e => (ms, "err " ++ toString e)
+    | _, _ => (ms, "err BAD-LINE")
   | _ :: "dddmp_eval" :: names :: fields =>
     -- truth tables of `evalFile` (the specification) for every node line and root entry
     match parseDddmpFile fields with
@@ -20,11 +29,10 @@ def stepLineDddmp (ms : Mgrs) (line : String) : Mgrs × String :=
       let names := splitList ((names.drop 6).toString) ','
       let ns := f.nodes.map fun n => s!"{n.u}:{dddmpTruthTable f names n.u}"
       let rs := (f.rootids.getD []).map fun r => s!"r{r}:{dddmpTruthTable f names r}"
-      -- … and of `evalFormat` (the DDDMP reading rule on the header lines) when the file has names
-      let fs := if f.named then
+      -- … and of `evalFormat` (the DDDMP reading rule on the header lines; files without names: the loader's convention)
+      let fs :=
           (f.nodes.map fun n => s!"F{n.u}:{dddmpFormatTable f names n.u}") ++
           ((f.rootids.getD []).map fun r => s!"Fr{r}:{dddmpFormatTable f names r}")
-        else []
       (ms, "ok " ++ joinWith ";" (ns ++ rs ++ fs))
     | none => (ms, "err BAD-LINE")
   | _ => stepLine ms line
